@@ -101,6 +101,12 @@ def shadow(patch, props, tier="quick", keep=False):
             viol = [l for l in out.splitlines() if l.startswith("VIOLATION") or l.strip().startswith("signature=") or l.startswith("INFRA")]
             results[p] = {"exit": rc, "wall_s": round(time.time() - t, 1), "lines": viol[:6]}
             print(name, p, tier, "exit", rc, "%.0fs" % (time.time() - t), " | ".join(v.strip()[:160] for v in viol[:3]), flush=True)
+            mp = os.path.join(HOME, "seeded", name, "meta.json")
+            if os.path.exists(mp) and json.load(open(mp)).get("property") == p:
+                meta = json.load(open(mp))   # a seeded change tried against its own property: keep the outcome with the seed
+                meta.setdefault("detection", {})[tier] = {"exit": rc, "wall_s": round(time.time() - t, 1), "lines": viol[:6], "mode": "shadow worktree",
+                                                           "verif_commit": sh("git -C %s rev-parse --short HEAD" % HOME)[1].strip()}
+                json.dump(meta, open(mp, "w"), indent=1)
     finally:
         if not keep:
             sh("git -C /repo worktree remove --force %s" % wt)
